@@ -366,3 +366,20 @@ class Check:
         print("%s %s: %s  (%.1fs, evidence evidence/%s.json)" % (
             self.pid, self.tier, "FAIL" if new else "ok", wall, self.pid))
         return 1 if new else 0
+
+
+def goal_lts(engine, module, cfg, view, path, workers=8, timeout=900):
+    """Model-based test generation: cfg states `Never<Goal>` as an invariant; TLC refutes it and the counterexample -
+    the shortest behaviour into the situation - is written as LTS edges <<View, last', View', level>> (the format the
+    Emit action constraint prints), so that the replay engines execute it like any other part of the LTS.
+    view: the variables of the specification's VIEW, in order; the output variable is `last`."""
+    r = tlc(engine, module, cfg, workers=workers, timeout=timeout, dump_trace=True)
+    if r.violation is None or not r.trace_json:
+        raise Inconclusive("goal config %s: TLC did not reach the goal (vacuity guard failed)\n%s" % (cfg, r.out[-1500:]))
+    states = [st[1] for st in r.trace_json["counterexample"]["state"]]
+    with open(path, "w") as f:
+        for k in range(len(states) - 1):
+            a, b = states[k], states[k + 1]
+            f.write(json.dumps([[a[v] for v in view], b["last"], [b[v] for v in view], k + 1]) + "\n")
+    return r, len(states) - 1
+
